@@ -58,6 +58,14 @@ def linear_interp(theta, phi, level, mask_edges, log=False):
         return float("nan") if mask_edges else float(ys[-1])
     for k in range(len(xs) - 1):
         if xs[k] <= level <= xs[k + 1]:
+            if ys[k] != ys[k] or ys[k + 1] != ys[k + 1]:
+                # a missing value at an end of the segment: the interpolant is undefined there (at a knot itself the
+                # value of the knot, if it has one)
+                if level == xs[k] and ys[k] == ys[k]:
+                    return float(ys[k])
+                if level == xs[k + 1] and ys[k + 1] == ys[k + 1]:
+                    return float(ys[k + 1])
+                return float("nan")
             if log:
                 t = (level - xs[k]) / (xs[k + 1] - xs[k])
                 return float(ys[k] + t * (ys[k + 1] - ys[k]))
